@@ -5,7 +5,7 @@
    that (in-place numpy updates, shared dictionaries) is what the correspondence and the
    before/after oracle check on every run (tested_only: the numpy aliasing of boundary matrices). *)
 From Coq Require Import String ZArith Bool Arith List.
-From SV Require Import Names NamesFacts ListFacts Rep Fresh Complex Atomic RepInv Reach Homology Filtration Gen World WorldProofs CtorFrame DeepcopyFrame DeepcopyContents.
+From SV Require Import Names NamesFacts ListFacts Rep Fresh Complex Atomic RepInv Reach Homology Filtration Gen World WorldProofs CtorFrame DeepcopyFrame DeepcopyContents FiltCopyFrame CtorHeapFrame.
 
 (* any read-only query -- Betti numbers, normal forms, cycle bases, boundaries, Euler
    characteristic and integral, comparisons, ... -- returns the world it was given *)
@@ -77,3 +77,20 @@ Proof.
   exact (deepcopy_contents_owned _ _ _ _ _ Ho Hne H).
 Qed.
 Print Assumptions C08_deepcopy_of_an_owned_complex.
+
+(* every derived-complex constructor, accepted or rejected: no attribute dictionary that existed before
+   the call is written (owners are handed out from the world's counter, so the dictionaries that
+   existed are those whose owner is below it) *)
+Theorem C08_constructors_write_no_existing_dictionary :
+  forall w c x w' o, ctor_result c = Some x -> exec w c = (w', o) ->
+  forall h, fst h < w_uid w -> heap_get (w_heap w') h = heap_get (w_heap w) h.
+Proof. exact ctor_heap_frame. Qed.
+Print Assumptions C08_constructors_write_no_existing_dictionary.
+
+(* Filtration.copy(): the complex underneath the result owns all its dictionaries under the new
+   uid; nothing of another owner is written *)
+Theorem C08_filtration_copy_writes_only_new_cells :
+  forall hp f uid orders hp' c x, f_copy hp f uid orders = (hp', c, x) ->
+  owned (f_rep c) /\ r_uid (f_rep c) = uid /\ forall h, fst h <> uid -> heap_get hp' h = heap_get hp h.
+Proof. exact f_copy_fresh. Qed.
+Print Assumptions C08_filtration_copy_writes_only_new_cells.
